@@ -31,9 +31,9 @@ say "unexpected failing tests: $FAILS"
 # demo with the change
 if [ -f "$DEMO" ]; then
   cp "$DEMO" tests/seeded_demo.rs
-  if cargo test --offline --test seeded_demo >"$OUT/demo_with$N.log" 2>&1; then say "demo WITH change: passes (unexpected)"; DW=pass; else say "demo WITH change: fails (expected)"; DW=fail; fi
+  if cargo test --offline --features "derive bit-vec bytes generic-array max-encoded-len" --test seeded_demo >"$OUT/demo_with$N.log" 2>&1; then say "demo WITH change: passes (unexpected)"; DW=pass; else say "demo WITH change: fails (expected)"; DW=fail; fi
   git apply -R "$PATCH"
-  if cargo test --offline --test seeded_demo >"$OUT/demo_without$N.log" 2>&1; then say "demo WITHOUT change: passes (expected)"; DO=pass; else say "demo WITHOUT change: fails (unexpected)"; DO=fail; fi
+  if cargo test --offline --features "derive bit-vec bytes generic-array max-encoded-len" --test seeded_demo >"$OUT/demo_without$N.log" 2>&1; then say "demo WITHOUT change: passes (expected)"; DO=pass; else say "demo WITHOUT change: fails (unexpected)"; DO=fail; fi
 else
   say "no demo file"; DW=na; DO=na
 fi
